@@ -191,7 +191,7 @@ pub fn gen_op(src: &mut Src, m: &M) -> Op {
             230..=233 if n_as > 0 => Op::ReplaceSame(src.below(n_as), match src.below(4) { 0 => None, 1 => Some(Obs::Elide), 2 => Some(Obs::Compress), _ => Some(Obs::Encrypt) }),
             230..=233 => Op::AddBulk(small_assertion(src), small_assertion(src), 0, 0),
             234 | 235 => Op::AddSubjectItself,
-            _ => Op::ImportOpen(src.below(2) as u8, src.below(8) as u8),
+            _ => Op::ImportOpen(src.below(2) as u8, src.below(9) as u8),
         };
     }
     let w = [
@@ -538,6 +538,22 @@ pub fn apply(e: &Envelope, m: &M, op: &Op) -> Applied {
                 None => Predicted::Unpredicted,
             };
             Applied { result: e.replace_assertion(old, newe).map_err(|r| r.to_string()), predicted }
+        }
+        Op::ImportOpen(kind, 8) => {
+            // a NODE whose encrypted / compressed subject declares a digest its content does not have: opening the
+            // subject must be refused (a result would carry a digest that disagrees with its children)
+            let claimed = M::text("what the subject claims to be").digest();
+            let content = M::text("what it really holds").tagged();
+            let forged: Result<Envelope, String> = if *kind == 0 {
+                Envelope::try_from(key.encrypt_with_digest(content, bridge::dig(&claimed), Some(bc_components::Nonce::from_data_ref([8u8; 12]).unwrap()))).map_err(|r| r.to_string())
+            } else {
+                Envelope::try_from(Compressed::from_uncompressed_data(content, Some(bridge::dig(&claimed)))).map_err(|r| r.to_string())
+            };
+            let result = forged.and_then(|x| {
+                let node = x.add_assertion("k", "v");
+                if *kind == 0 { node.decrypt_subject(&key).map_err(|r| r.to_string()) } else { node.uncompress_subject().map_err(|r| r.to_string()) }
+            });
+            Applied { result: result.map(|y| e.add_assertion("opened", y)), predicted: Predicted::Error }
         }
         Op::ImportOpen(kind, variant) => {
             // subject and three assertions, written out by the harness encoder in a non-canonical arrangement
